@@ -469,6 +469,10 @@ func run(c *core.Ctx) {
 	c.Assume("without fixWhitespace a part that ends in an empty symbol extends to the start of the next token (implementation's behaviour accepted, counted in events_extended_to_next_token_without_fixWhitespace)")
 	c.Assume("genharness.StdDriver reports listener calls faithfully (NodeType.String(), offset, endoffset)")
 
+	if os.Getenv("VERIF_C02_DEBUG") == "picks" {
+		runExt(c, &runner{c: c}, 190, 6, func() bool { return false })
+		return
+	}
 	if os.Getenv("VERIF_C02_DEBUG") == "shapes" {
 		debugShapes()
 		return
@@ -670,6 +674,11 @@ func runExt(c *core.Ctx, r *runner, target, W int, feedCFG func() bool) {
 				modes := p.modes
 				if modes == nil {
 					modes = []bool{picked%2 == 1}
+				}
+				if os.Getenv("VERIF_C02_DEBUG") == "picks" {
+					fmt.Printf("%3d w=%d modes=%v sent=%d class=%s :: %s\n", picked, p.weight, modes, p.sentences, cl, strings.Join(strings.Fields(p.g.RulesText()), " "))
+					picked += len(modes)
+					continue
 				}
 				for _, fix := range modes {
 					r.add(p, fix)
